@@ -346,8 +346,79 @@ func c02Section(r *verifh.Rng, kind int) verifh.Section {
 	return verifh.Section{Cfg: cfg, Ops: g.ops}
 }
 
+// c02Lifecycle: the life of the droppedRecently flag over one history. (1) load: n requests admitted, some passed with a
+// known latency so that the capacity estimate is about 10; (2) a drop episode: overloaded Allows that shed; (3) the cool-off
+// expires and a calm Allow sees that (the flag must be cleared here); (4) an overloaded Allow that is ADMITTED (the reading
+// sits at the threshold: factor 1, in-flight below the full estimate) stamps overloadTime again; (5) calm Allows within
+// the next second with a high CPU reading (factor 0.1): nothing may be shed, no shedding is in progress. The steps are
+// repeated with random gaps around the one second boundary, so that episodes that are still in progress occur as well.
+func c02Lifecycle(r *verifh.Rng) verifh.Section {
+	thr := r.Pick(900, 900, 500, 800)
+	t0 := int64(r.Pick(1, 123456789, 86400000000000))
+	g := &c02G{r: r, now: t0, t0: t0, interval: 1e8, size: 10, thr: thr, keys: 1, lastOver: t0, dflt: r.Chance(1, 3)}
+	n := r.Range(14, 24)
+	for i := 0; i < n; i++ {
+		g.allow(false, 0)
+	}
+	g.adv(int64(r.Range(20, 100)) * 1e6)
+	for i := 0; i < r.Range(5, 10); i++ {
+		g.resolve(true)
+	}
+	g.adv(g.toBoundary() + int64(r.Intn(1000)))
+	hot := func(cpu int) {
+		id := g.nextID
+		g.nextID++
+		g.lastOver = g.now
+		if g.dflt {
+			g.ops = append(g.ops, fmt.Sprintf("allow k=0 over=d cpu=%d p=%d", cpu, id))
+		} else {
+			g.ops = append(g.ops, fmt.Sprintf("allow k=0 over=1 cpu=%d p=%d", cpu, id))
+		}
+		g.open = append(g.open, id)
+	}
+	calm := func(cpu int) {
+		id := g.nextID
+		g.nextID++
+		if g.dflt {
+			// the default checker reads the same figure: a calm verdict needs a reading below the threshold
+			cpu = thr - 1
+		}
+		o := "0"
+		if g.dflt {
+			o = "d"
+		}
+		g.ops = append(g.ops, fmt.Sprintf("allow k=0 over=%s cpu=%d p=%d", o, cpu, id))
+		g.open = append(g.open, id)
+	}
+	for round := 0; round < r.Range(2, 4); round++ {
+		for i := 0; i < r.Range(1, 3); i++ {
+			hot(r.Pick(1000, 1000, 999, 1100)) // drop episode
+		}
+		g.adv(int64(r.Pick(1, 1000, 5e8)))
+		// the cool-off expires (or, sometimes, does not quite)
+		g.adv(g.lastOver + 1e9 - g.now + int64(r.Pick(0, 0, 1, 1, 5e8, 3e9, -1, -1000)))
+		for i := 0; i < r.Range(1, 2); i++ {
+			calm(r.Pick(0, thr-1, 1000))
+		}
+		g.adv(int64(r.Pick(0, 1, 1000, 2e8)))
+		hot(thr) // overloaded, but at the threshold the whole estimate counts: admitted
+		for i := 0; i < r.Range(1, 3); i++ {
+			g.adv(int64(r.Pick(1, 1000, 5e8, 999999998-5e8)))
+			calm(r.Pick(1000, 1000, 999, 990))
+		}
+		if r.Chance(1, 2) {
+			g.resolve(true)
+		}
+	}
+	cfg := fmt.Sprintf("window=1000000000 buckets=10 threshold=%d t0=%d disabled=0 group=0 opts=wbt lifecycle=1", thr, t0)
+	return verifh.Section{Cfg: cfg, Ops: g.ops}
+}
+
 func c02Gen(r *verifh.Rng) []verifh.Section {
 	var secs []verifh.Section
+	for i := 0; i < verifh.Scale(6, 40); i++ {
+		secs = append(secs, c02Lifecycle(r.Fork()))
+	}
 	// the real CPU sampler: from a full and from an idle reading, two consecutive ticks each
 	secs = append(secs, verifh.Section{Cfg: "window=1000000000 buckets=10 threshold=900 t0=1 disabled=0 group=0 opts=wbt sampler=1",
 		Ops: []string{"sample prev=1000 n=2", "sample prev=0 n=1", fmt.Sprintf("sample prev=%d n=1", r.Pick(200, 400, 600, 800))}})
